@@ -373,7 +373,7 @@ func init() {
 	run.Register(&run.Prop{
 		ID: "C11", Level: "fault_enumeration",
 		Rule: func(tier string) string {
-			return "case = one pipeline of 1..5 valid requests (request 0 rotates over every grammar entry; in a third of the pipelines half of the requests carry their last argument as a simple-string or integer line instead of a bulk string) and EVERY byte offset of its encoding as the point where the stream ends, x {half-close (reads return EOF, writes succeed), reset, full close (reads return EOF and the reply writes fail from the first or second on, and in a third of these runs closing the transport reports an error as a TLS close does when the alert cannot be sent; only where >= 2 requests are complete)} and half-close with the last bytes and the end of stream reported by one read} x {prefix delivered whole, 1-byte chunks}; complete per pipeline. Oracle (differential against the uncut run of the same pipeline): recorded handler calls are exactly the calls of the requests whose last byte was delivered (per-request multiset, in request order), the bytes written are exactly those requests' replies, the connection loop returned, the connection was closed and Server.Conns() is empty. distinct_nontrivial = distinct (pipeline, offset, ending, delivery) with the cut strictly inside a request; counters cut:* classify where the cut fell"
+			return "case = one pipeline of 1..5 valid requests (request 0 rotates over every grammar entry; in a third of the pipelines half of the requests carry their last argument as a simple-string or integer line instead of a bulk string) and EVERY byte offset of its encoding as the point where the stream ends, x {half-close (reads return EOF, writes succeed), reset, full close (reads return EOF and the reply writes fail from the first or second on, and in a third of these runs closing the transport reports an error as a TLS close does when the alert cannot be sent; only where >= 2 requests are complete)} and half-close with the last bytes and the end of stream reported by one read} x {prefix delivered whole, 1-byte chunks}; complete per pipeline. Oracle (differential against the uncut run of the same pipeline): recorded handler calls are exactly the calls of the requests whose last byte was delivered (per-request multiset, in request order), the bytes written are exactly those requests' replies, the connection loop returned, the connection was closed and Server.Conns() is empty. Plus 4 (thorough 40) cases on a real TCP connection: four ECHO requests with 4 MiB arguments and a cut-off request, half-close, a slow reader - every reply byte and then the end of the stream must arrive (a reset that discards queued replies loses answers to complete requests). distinct_nontrivial = distinct (pipeline, offset, ending, delivery) with the cut strictly inside a request; counters cut:* classify where the cut fell"
 		},
 		Exhaustive:  func(string) bool { return false },
 		Assumptions: []string{"the scripted connection delivers all bytes before the cut even when the ending is a reset (a real RST may discard unread data; then fewer requests are complete)"},
